@@ -182,13 +182,13 @@ func c14Core(c CaseC14, x *hx.Ctx, reuse func(i int) *packet.Packet) *hx.Failure
 		return c14Remove(c, payload)
 	}
 	// error contract
-	onlyIgnored := len(missing) > 0 && len(sel) == 0 && len(missing) != len(c.Request)
 	switch {
 	case len(missing) == 0:
 		if ferr != nil {
 			return hx.Failf("filter-spurious-error", "every requested PID is in the PMT (or is the PAT/PMT PID) but an error was returned: %v (%s)", ferr, ctx)
 		}
-	case len(missing) == len(c.Request):
+	case len(sel) == 0:
+		// none of the requested PIDs - the PAT and PMT PIDs do not count - is in the PMT
 		if ferr == nil || out != nil {
 			return hx.Failf("filter-none-present", "none of the requested PIDs is in the PMT: got %d packets, err %v; want no packets and an error (%s)", len(out), ferr, ctx)
 		}
@@ -205,7 +205,7 @@ func c14Core(c CaseC14, x *hx.Ctx, reuse func(i int) *packet.Packet) *hx.Failure
 		}
 	}
 	if out == nil {
-		if len(missing) == len(c.Request) || onlyIgnored {
+		if len(missing) > 0 && len(sel) == 0 {
 			return c14Remove(c, payload)
 		}
 		return hx.Failf("filter-no-packets", "no packets returned although %d requested PIDs are in the PMT (err %v; %s)", len(sel), ferr, ctx)
@@ -336,7 +336,6 @@ var propC14 = hx.Register(hx.Prop[CaseC14]{ID: "C14", Gen: genC14, Check: checkC
 
 func c14Rule() {
 	hx.Rec("C14").SetRule("cases: a reference-model PMT (as C06: 0..10 streams with distinct PIDs, descriptors incl. probes, section_length <= 1021) carried as pointer_field (0..150) + section + 0..200 stuffing bytes, packetised with payload sizes 1..184 per packet; a requested PID list: random subset of present PIDs in random order, with probability 1/4 each an absent PID (one in four of them a value outside 13 bits that aliases a stream PID under truncation to 13/16/31/32 bits), a duplicate, PAT PID 0, the PMT PID; also the empty list and all-absent lists; a PID list for RemoveElementaryStreams. Oracle: expected section = reference re-encoding of the model restricted to the selected streams (fresh section_length and reference CRC); output headers = input headers, concatenated payload = pointer+filler ++ expected section ++ 0xFF.., packet count = least k that holds it, inputs byte-identical afterwards, error contract incl. missing PIDs named, CRC residue zero under the reference CRC, decode round trip. Non-trivial: a proper non-empty subset is selected and (>= 2 packets or a stream with descriptors is removed from the middle).",
-		"when the list mixes only-absent PIDs with the PAT/PMT PID an error is required and the packets may be nil or a valid stream-less PMT",
 		"the PMT is the first and only section of the payload (the statement's carrier); elementary PIDs are distinct and differ from 0 and the PMT PID")
 }
 
